@@ -359,10 +359,12 @@ func Run(r *rt.Run) error {
 	// (2) every sequence of up to maxLen items over an alphabet of shapes
 	alpha := []func(k int) []edge.Message{
 		func(k int) []edge.Message { return []edge.Message{pts[(k*7)%len(pts)]} },
-		func(k int) []edge.Message { return []edge.Message{bts[0]} },                      // empty batch
-		func(k int) []edge.Message { return []edge.Message{bts[4+(k%2)]} },                // batch of 2 / 3
-		func(k int) []edge.Message { return unbuffered(bts[4]) },                          // unbuffered batch of 2
-		func(k int) []edge.Message { return []edge.Message{mkPoint("m", groupClasses()[0], badFields()[k%2], tTyp)} }, // dropped
+		func(k int) []edge.Message { return []edge.Message{bts[0]} },       // empty batch
+		func(k int) []edge.Message { return []edge.Message{bts[4+(k%2)]} }, // batch of 2 / 3
+		func(k int) []edge.Message { return unbuffered(bts[4]) },           // unbuffered batch of 2
+		func(k int) []edge.Message {
+			return []edge.Message{mkPoint("m", groupClasses()[0], badFields()[k%2], tTyp)}
+		}, // dropped
 	}
 	maxLen := 2
 	if r.Thorough() {
